@@ -46,6 +46,20 @@ def segCap (k : Nat) : Nat := if k = 0 then Generated.C10.embeddedBuckets else s
 /-- `get_bucket(h)`: (segment, offset inside the segment) -/
 def bucketAddr (i : Nat) : Nat × Nat := (segIndexOf i, i - segBase (segIndexOf i))
 
+/-- which bucket array `get_bucket(i)` points into and at which offset: 0 = the embedded array, 1 = the single
+allocation that backs segments `embedded_block .. first_block-1` (enable_segment stores `ptr - segment_base(embedded_block)
++ segment_base(i)` for them), `k - first_block + 2` = the allocation of segment `k ≥ first_block`. -/
+def allocOf (i : Nat) : Nat × Nat :=
+  if i < Generated.C10.embeddedBuckets then (0, i)
+  else if segIndexOf i < Generated.C10.firstBlock then (1, i - Generated.C10.embeddedBuckets)
+  else (segIndexOf i - Generated.C10.firstBlock + 2, i - segBase (segIndexOf i))
+
+/-- number of buckets in allocation `a` -/
+def allocSize (a : Nat) : Nat :=
+  if a = 0 then Generated.C10.embeddedBuckets
+  else if a = 1 then segSize Generated.C10.firstBlock - Generated.C10.embeddedBuckets
+  else segSize (a + Generated.C10.firstBlock - 2)
+
 /-- rehash_bucket: `mask = (1 << log2(hash)) - 1`; parent bucket `hash & mask` -/
 def parentCode (b : Nat) : Nat := b &&& ((1 <<< Nat.log2 b) - 1)
 
@@ -143,6 +157,7 @@ inductive Pc where
   | rdMask                 -- m = my_mask.load()
   | peek                   -- bucket_accessor::acquire: node_list.load(acquire) of the target bucket
   | lockTry                -- flag seen: try_acquire(mutex, write = true)
+  | mark                   -- rehash_bucket: node_list.store(empty_rehashed_flag) ("mark rehashed")
   | lockBlk                -- acquire(mutex, writer)
   | rhUpg                  -- rehash_bucket: b_old.upgrade_to_writer()
   | rhRelock               -- … its slow path: writer re-acquisition, then `goto restart`
@@ -202,9 +217,9 @@ structure Sh where
   seg : Nat → Seg := fun k => if k = 0 then .enabled else .none
   bkt : Nat → Bucket := fun b => if b < Generated.C10.embeddedBuckets then .chain [] else .flagged
   blk : Nat → Lock := fun _ => {}
-  elk : Nat → Lock := fun _ => {}
-  freed : Nat → Bool := fun _ => false
-  unlinker : Nat → Option Tid := fun _ => none     -- ghost: who unlinked node id
+  elk : Node → Lock := fun _ => {}                 -- element mutexes (a node is identified by its (id, key, value))
+  freed : Node → Bool := fun _ => false
+  unlinker : Node → Option Tid := fun _ => none    -- ghost: who unlinked the node
   nextId : Nat := 0
   hist : List HEv := []                             -- ghost, newest first
 
@@ -215,7 +230,7 @@ structure St where
 inductive Lab where
   | none | blocked
   | ldmask (v : Nat) | stmask (v : Nat)
-  | ldl (b : Nat) (flagged : Bool)
+  | ldl (b : Nat) (flagged : Bool) | stl (b : Nat)
   | bl (b : Nat) (w : Bool) | bup (b : Nat) | bdn (b : Nat) | bur (b : Nat) | buw (b : Nat)
   | szinc (v : Nat) | szdec (v : Nat)
   | ldt (k : Nat) (nonnull : Bool) | tcas (k : Nat) (ok : Bool) | tst (k : Nat)
@@ -226,10 +241,11 @@ inductive Lab where
 /-! ## Helpers -/
 
 def upd {α : Type} (f : Nat → α) (i : Nat) (v : α) : Nat → α := fun j => if j = i then v else f j
+def updN {α : Type} (f : Node → α) (i : Node) (v : α) : Node → α := fun j => if j = i then v else f j
 
 def Sh.setB (sh : Sh) (b : Nat) (v : Bucket) : Sh := { sh with bkt := upd sh.bkt b v }
 def Sh.setBL (sh : Sh) (b : Nat) (l : Lock) : Sh := { sh with blk := upd sh.blk b l }
-def Sh.setEL (sh : Sh) (n : Nat) (l : Lock) : Sh := { sh with elk := upd sh.elk n l }
+def Sh.setEL (sh : Sh) (n : Node) (l : Lock) : Sh := { sh with elk := updN sh.elk n l }
 def Sh.chainOf (sh : Sh) (b : Nat) : List Node := (sh.bkt b).nodes
 def Sh.log (sh : Sh) (e : HEv) : Sh := { sh with hist := e :: sh.hist }
 
@@ -252,6 +268,10 @@ def Th.finish (t : Th) (v : Nat := 0) : Th :=
            results := (t.ret, v) :: t.results }
 
 def Th.drop (t : Th) : Th := { t with ops := t.ops.tail, misuse := true }
+
+/-- value reported with the result: the mapped value behind the accessor the operation returns -/
+def Th.resVal (t : Th) : Nat :=
+  if t.op.acc = 0 then 0 else match t.acc with | some (n, _) => n.val | none => 0
 
 def findKey (c : List Node) (k : Nat) : Option Node := c.find? (fun n => n.key == k)
 
@@ -304,7 +324,7 @@ def afterAcq (hash : Nat → Nat) (sh : Sh) (tid : Tid) (t : Th) : Sh × Th :=
           match t.n with
           | some n => if n ∈ c then (sh, { t with pc := .unlink }) else (sh, { t with pc := .chk1 })
           | none => (sh, { t with pc := .chk1 })
-      | .release => (sh, t)
+      | .release => (sh, { t with pc := .relB .fin })      -- unreachable: release takes no bucket lock
 
 /-- check_mask_race returned false: the search result stands. -/
 def chkPass (sh : Sh) (tid : Tid) (t : Th) : Sh × Th :=
@@ -322,7 +342,7 @@ def chkPass (sh : Sh) (tid : Tid) (t : Th) : Sh × Th :=
         | _ => (sh, t)
       else (sh.log (t.ev tid false none), { t with ret := false, pc := .relB .fin })
   | .exclude => (sh.log (t.ev tid false t.n), { t with ret := false, pc := .xRelAcc })
-  | .release => (sh, t)
+  | .release => (sh, { t with pc := .relB .fin })          -- unreachable
 
 def doRdMask (sh : Sh) (t : Th) : Out :=
   (sh, { t with m := sh.lvl, pc := .peek, stk := [] }, .ldmask (2 ^ sh.lvl - 1))
@@ -350,9 +370,9 @@ def stepTh (hash : Nat → Nat) (sh : Sh) (tid : Tid) (t : Th) (alt : Nat) : Out
             match t.acc with
             | none => (sh, t.drop, .none)
             | some (n, w) =>
-                let l := sh.elk n.id
+                let l := sh.elk n
                 let t' := ({ t with acc := none, ret := true } : Th).finish
-                if w then (sh.setEL n.id l.clrW, t', .euw n.id) else (sh.setEL n.id (l.delR tid), t', .eur n.id)
+                if w then (sh.setEL n l.clrW, t', .euw n.id) else (sh.setEL n (l.delR tid), t', .eur n.id)
         | .exclude =>
             match t.acc with
             | none => (sh, t.drop, .none)
@@ -368,9 +388,9 @@ def stepTh (hash : Nat → Nat) (sh : Sh) (tid : Tid) (t : Th) (alt : Nat) : Out
   | .lockTry =>
       let b := t.tgt
       if (sh.bkt b).isFlagged then
-        -- nobody can hold the lock of a flagged bucket: the try succeeds, the flag is still set: mark rehashed, go for the parent
+        -- nobody can hold the lock of a flagged bucket: the try succeeds; the flag is still set: rehash_bucket
         if (sh.blk b).isFree then
-          ((sh.setBL b ((sh.blk b).setW tid)).setB b (.pending tid), { t with stk := (b, true) :: t.stk, pc := .peek }, .bl b true)
+          (sh.setBL b ((sh.blk b).setW tid), { t with stk := (b, true) :: t.stk, pc := .mark }, .bl b true)
         else (sh, t, .blocked)
       else if alt = 0 then
         if (sh.blk b).isFree then
@@ -378,6 +398,10 @@ def stepTh (hash : Nat → Nat) (sh : Sh) (tid : Tid) (t : Th) (alt : Nat) : Out
           (sh', t', .bl b true)
         else (sh, t, .blocked)
       else (sh, { t with pc := .lockBlk }, .none)
+  | .mark =>
+      match t.stk with
+      | (b, _) :: _ => (sh.setB b (.pending tid), { t with pc := .peek }, .stl b)
+      | [] => (sh, t, .none)
   | .lockBlk =>
       let b := t.tgt
       let wantW := t.stk.isEmpty && t.op.k == .exclude
@@ -478,14 +502,17 @@ def stepTh (hash : Nat → Nat) (sh : Sh) (tid : Tid) (t : Th) (alt : Nat) : Out
       match t.n, t.stk with
       | some n, [(b, w)] =>
           if alt = 0 then
-            let l := sh.elk n.id
+            let l := sh.elk n
             let wantW := t.op.acc = 2
             let ok := if wantW then l.isFree else l.canRead
             if ok then
-              let sh1 := sh.setEL n.id (if wantW then l.setW tid else l.addR tid)
+              let sh1 := sh.setEL n (if wantW then l.setW tid else l.addR tid)
               let sh2 := if t.ret && t.op.k == .ins then sh1 else sh1.log (t.ev tid t.ret (some n))
               (sh2, { t with acc := some (n, wantW), pc := .relB .fin }, .el n.id wantW)
             else (sh, t, .blocked)
+          else if t.ret && t.op.k == .ins then
+            -- "Can't acquire new item in locked bucket?": the element lock of a node this call has just linked is free
+            (sh, t, .blocked)
           else
             -- the wait takes really long: b.release(), restart the operation with a fresh mask
             let sh1 := if w then sh.setBL b (sh.blk b).clrW else sh.setBL b ((sh.blk b).delR tid)
@@ -500,8 +527,8 @@ def stepTh (hash : Nat → Nat) (sh : Sh) (tid : Tid) (t : Th) (alt : Nat) : Out
           match a with
           | .fin =>
               if t.grow ≠ 0 then (sh1, { t1 with pc := .alloc }, lab)
-              else (sh1, t1.finish (match t.acc with | some (n, _) => n.val | none => 0), lab)
-          | .restart => (sh1, { t1 with pc := .peek }, lab)
+              else (sh1, t1.finish t.resVal, lab)
+          | .restart => (sh1, { t1 with pc := .peek, rs := false }, lab)
           | .eLock => (sh1, { t1 with pc := .eLock }, lab)
           | .xUpg =>
               match t.acc with
@@ -514,7 +541,7 @@ def stepTh (hash : Nat → Nat) (sh : Sh) (tid : Tid) (t : Th) (alt : Nat) : Out
       ({ sh with seg := seg' }, { t with pc := .pubMask }, .tst k)
   | .pubMask =>
       let l := lvlAfterEnable t.grow
-      ({ sh with lvl := l }, t.finish (match t.acc with | some (n, _) => n.val | none => 0), .stmask (2 ^ l - 1))
+      ({ sh with lvl := l }, t.finish t.resVal, .stmask (2 ^ l - 1))
   | .eUpg =>
       match t.stk with
       | [(b, _)] =>
@@ -531,42 +558,42 @@ def stepTh (hash : Nat → Nat) (sh : Sh) (tid : Tid) (t : Th) (alt : Nat) : Out
   | .unlink =>
       match t.n, t.stk with
       | some n, [(b, _)] =>
-          let sh1 := ({ sh with size := sh.size - 1, unlinker := upd sh.unlinker n.id (some tid) }.setB b (.chain ((sh.chainOf b).erase n))).log (t.ev tid true (some n))
+          let sh1 := ({ sh with size := sh.size - 1, unlinker := updN sh.unlinker n (some tid) }.setB b (.chain ((sh.chainOf b).erase n))).log (t.ev tid true (some n))
           (sh1, { t with ret := true, pc := .relB (if t.op.k == .exclude then .xUpg else .eLock) }, .szdec (sh.size - 1))
       | _, _ => (sh, t, .none)
   | .eLock =>
       match t.n with
       | some n =>
-          if (sh.elk n.id).isFree then (sh.setEL n.id ((sh.elk n.id).setW tid), { t with pc := .eRel }, .el n.id true)
+          if (sh.elk n).isFree then (sh.setEL n ((sh.elk n).setW tid), { t with pc := .eRel }, .el n.id true)
           else (sh, t, .blocked)
       | none => (sh, t, .none)
   | .eRel =>
       match t.n with
-      | some n => (sh.setEL n.id (sh.elk n.id).clrW, { t with acc := (if t.op.k == .exclude then none else t.acc), pc := .free }, .euw n.id)
+      | some n => (sh.setEL n (sh.elk n).clrW, { t with acc := (if t.op.k == .exclude then none else t.acc), pc := .free }, .euw n.id)
       | none => (sh, t, .none)
   | .free =>
       match t.n with
-      | some n => ({ sh with freed := upd sh.freed n.id true }, t.finish, .free n.id)
+      | some n => ({ sh with freed := updN sh.freed n true }, t.finish, .free n.id)
       | none => (sh, t, .none)
   | .xUpg =>
       match t.n with
       | some n =>
           if alt = 0 then
-            if (sh.elk n.id).soleReader tid then (sh.setEL n.id ((sh.elk n.id).setW tid), { t with acc := some (n, true), pc := .eRel }, .eup n.id)
+            if (sh.elk n).soleReader tid then (sh.setEL n ((sh.elk n).setW tid), { t with acc := some (n, true), pc := .eRel }, .eup n.id)
             else (sh, t, .blocked)
-          else (sh.setEL n.id ((sh.elk n.id).delR tid), { t with acc := none, pc := .xRelock }, .eur n.id)
+          else (sh.setEL n ((sh.elk n).delR tid), { t with acc := none, pc := .xRelock }, .eur n.id)
       | none => (sh, t, .none)
   | .xRelock =>
       match t.n with
       | some n =>
-          if (sh.elk n.id).isFree then (sh.setEL n.id ((sh.elk n.id).setW tid), { t with acc := some (n, true), pc := .eRel }, .el n.id true)
+          if (sh.elk n).isFree then (sh.setEL n ((sh.elk n).setW tid), { t with acc := some (n, true), pc := .eRel }, .el n.id true)
           else (sh, t, .blocked)
       | none => (sh, t, .none)
   | .xRelAcc =>
       match t.acc with
       | some (n, w) =>
-          let l := sh.elk n.id
-          let sh1 := if w then sh.setEL n.id l.clrW else sh.setEL n.id (l.delR tid)
+          let l := sh.elk n
+          let sh1 := if w then sh.setEL n l.clrW else sh.setEL n (l.delR tid)
           (sh1, { t with acc := none, pc := .relB .fin }, if w then .euw n.id else .eur n.id)
       | none => (sh, t, .none)
 
@@ -646,6 +673,127 @@ def specRun (s : Spec) : List HEv → Option Spec
     | some s' => specRun s' es
     | none => none
 
+
+/-! ## Executable mirror of the inductive invariant of Proofs/C10/Inv.lean (bounded quantifiers), run on every state of
+the replayed traces: a wrong invariant shows up here before anybody tries to prove it. -/
+
+def Lock.wfB (l : Lock) : Bool := l.w.isNone || l.r.isEmpty
+
+def holdsBB (sh : Sh) (tid : Tid) (f : Nat × Bool) : Bool :=
+  if f.2 then (sh.blk f.1).w == some tid else (sh.blk f.1).r.contains tid
+
+def aboveNCB (sh : Sh) (h b : Nat) : Bool :=
+  (List.range (sh.lvl + 3)).all (fun l => !(b < h % 2 ^ l) || !(sh.bkt (h % 2 ^ l)).isChain)
+
+def homeIsB (sh : Sh) (h b : Nat) : Bool :=
+  (List.range (sh.lvl + 1)).any (fun l => b == h % 2 ^ l) && (sh.bkt b).isChain && aboveNCB sh h b
+
+def linkedToB (h m c : Nat) : List (Nat × Bool) → Bool
+  | [] => c == h % 2 ^ m
+  | (d, _) :: _ => c == parentOf d
+
+def rhStackB (sh : Sh) (tid : Tid) (h m : Nat) : List (Nat × Bool) → Bool
+  | [] => true
+  | (c, _) :: rest => sh.bkt c == .pending tid && 2 ≤ c && linkedToB h m c rest && rhStackB sh tid h m rest
+
+def notFoundB (sh : Sh) (t : Th) (b : Nat) : Bool :=
+  match t.op.k with
+  | .exclude => match t.n with | some n => !(sh.chainOf b).contains n | none => true
+  | _ => (findKey (sh.chainOf b) t.op.key).isNone
+
+def foundB (sh : Sh) (t : Th) (b : Nat) : Bool :=
+  match t.n with
+  | some n => (sh.chainOf b).contains n && (t.op.k == .exclude || n.key == t.op.key)
+  | none => false
+
+def unlinkedB (sh : Sh) (tid : Tid) (t : Th) : Bool :=
+  match t.n with
+  | some n => sh.unlinker n == some tid && (List.range (2 ^ (sh.lvl + 1))).all (fun b => !(sh.chainOf b).contains n) && !sh.freed n
+  | none => false
+
+def opFrameB (sh : Sh) (t : Th) (b : Nat) : Bool :=
+  (sh.bkt b).isChain && (List.range (sh.lvl + 1)).any (fun l => b == t.h % 2 ^ l)
+
+def cAtB (sh : Sh) (tid : Tid) (t : Th) : Bool :=
+  match t.pc, t.stk with
+  | .idle, _ | .rdMask, _ | .alloc, _ | .pubMask, _ => t.stk.isEmpty
+  | .peek, s | .lockTry, s => rhStackB sh tid t.h t.m s && s.all (·.2)
+  | .lockBlk, s => rhStackB sh tid t.h t.m s && s.all (·.2) && !(sh.bkt t.tgt).isFlagged
+  | .mark, (b, true) :: rest => sh.bkt b == .flagged && 2 ≤ b && linkedToB t.h t.m b rest && rhStackB sh tid t.h t.m rest
+  | .rhUpg, (p, false) :: rest => !rest.isEmpty && (sh.bkt p).isChain && linkedToB t.h t.m p rest && rhStackB sh tid t.h t.m rest
+  | .rhRelock, s => !s.isEmpty && rhStackB sh tid t.h t.m s && (sh.bkt t.tgt).isChain
+  | .rhRel, (p, _) :: (c, true) :: rest => (sh.bkt p).isChain && (sh.bkt c).isChain && 2 ≤ c && p == parentOf c && linkedToB t.h t.m c rest && rhStackB sh tid t.h t.m rest
+  | .upg, [(b, false)] => opFrameB sh t b && b == t.h % 2 ^ t.m && notFoundB sh t b
+  | .relock, [] | .eRelock, [] => (sh.bkt (t.h % 2 ^ t.m)).isChain
+  | .dng, [(b, true)] => opFrameB sh t b && foundB sh t b
+  | .chk1, [(b, w)] => opFrameB sh t b && (b == t.h % 2 ^ t.m || (w && aboveNCB sh t.h b)) && (t.rs || notFoundB sh t b) && (!t.rs || (w && t.op.k == .erase)) && (t.op.k != .ins || w)
+  | .chk2, [(b, w)] => opFrameB sh t b && (b == t.h % 2 ^ t.mo || (w && aboveNCB sh t.h b)) && t.mo < t.m && t.h % 2 ^ t.mo != t.h % 2 ^ t.m && (t.rs || notFoundB sh t b) && (!t.rs || (w && t.op.k == .erase)) && (t.op.k != .ins || w)
+  | .link, [(b, true)] => opFrameB sh t b && notFoundB sh t b && aboveNCB sh t.h b
+  | .elect1, [(b, true)] | .elect2, [(b, true)] => opFrameB sh t b && foundB sh t b
+  | .elemTry, [(b, _)] => opFrameB sh t b && foundB sh t b
+  | .relB a, [(b, _)] => opFrameB sh t b && (!(a == .eLock || a == .xUpg) || unlinkedB sh tid t)
+  | .eUpg, [(b, false)] => opFrameB sh t b && b == t.h % 2 ^ t.m && foundB sh t b
+  | .unlink, [(b, true)] => opFrameB sh t b && foundB sh t b
+  | .eLock, [] | .xUpg, [] | .xRelock, [] => unlinkedB sh tid t
+  | .eRel, [] => unlinkedB sh tid t && (match t.n with | some n => (sh.elk n).w == some tid | none => false)
+  | .free, [] => unlinkedB sh tid t && (match t.n with | some n => (sh.elk n).isFree | none => false)
+  | .xRelAcc, [(b, _)] => opFrameB sh t b
+  | _, _ => false
+
+def kAtB (t : Th) : Bool :=
+  let accN (wantW : Option Bool) : Bool := match t.n, t.acc with
+    | some n, some (a, w) => n == a && (match wantW with | some x => w == x | none => true)
+    | _, _ => false
+  match t.pc with
+  | .idle => true
+  | .upg | .relock | .dng | .link | .elect1 | .elect2 | .alloc | .pubMask => t.op.k == .ins
+  | .eUpg | .eRelock | .eLock | .relB .eLock => t.op.k == .erase
+  | .xRelock => t.op.k == .exclude && t.acc.isNone
+  | .xUpg => t.op.k == .exclude && accN (some false)
+  | .relB .xUpg | .xRelAcc => t.op.k == .exclude && accN none
+  | .unlink => t.op.k == .erase || (t.op.k == .exclude && accN none)
+  | .eRel => t.op.k == .erase || (t.op.k == .exclude && accN (some true))
+  | .free => t.op.k == .erase || (t.op.k == .exclude && t.acc.isNone)
+  | .elemTry => t.op.k == .find || (t.op.k == .ins && t.op.acc != 0)
+  | .relB .fin => t.op.k != .release
+  | _ => t.op.k != .release && (t.op.k != .exclude || accN none)
+
+def growAtB (sh : Sh) (t : Th) : Bool :=
+  t.m ≤ sh.lvl &&
+  (t.grow == 0 || (t.grow == sh.lvl && sh.seg sh.lvl != .none && (t.pc == .elemTry || t.pc == .relB .fin || t.pc == .alloc || t.pc == .pubMask) && t.ret && t.op.k == .ins)) &&
+  (t.pc != .alloc || t.grow != 0) &&
+  (t.pc != .pubMask || (t.grow != 0 && (List.range (lvlAfterEnable t.grow)).all (fun k => k == 0 || sh.seg k != .none)))
+
+def checkInv (hash : Nat → Nat) (st : St) : Option String :=
+  let sh := st.sh
+  let nb := 2 ^ (sh.lvl + 1)
+  let bs := List.range nb
+  let fails : List String :=
+    (if 1 ≤ sh.lvl then [] else ["lvl_pos"]) ++
+    (if (sh.bkt 0).isChain && (sh.bkt 1).isChain then [] else ["emb"]) ++
+    (if (List.range (2 ^ sh.lvl)).all (fun i => sh.bkt (2 ^ sh.lvl + i) == .flagged) then [] else ["top"]) ++
+    (if bs.all (fun b => b < 2 || !(sh.bkt b).isChain || (sh.bkt (parentOf b)).isChain) then [] else ["closed"]) ++
+    (if bs.all (fun b => (sh.chainOf b).all (fun n => homeIsB sh (hash n.key) b)) then [] else ["home"]) ++
+    (if bs.all (fun b => ((sh.chainOf b).map (·.key)).eraseDups.length == (sh.chainOf b).length) then [] else ["nodup"]) ++
+    (if bs.all (fun b => (sh.blk b).wfB) then [] else ["bwf"]) ++
+    (if bs.all (fun b => match sh.bkt b with | .pending t => (sh.blk b).w == some t | _ => true) then [] else ["pend"]) ++
+    (if bs.all (fun b => (sh.chainOf b).all (fun n => n.id < sh.nextId && (sh.elk n).wfB && !sh.freed n && sh.unlinker n == none)) then [] else ["fresh/ewf/linkedOk"]) ++
+    (if (List.range sh.lvl).all (fun k => k == 0 || sh.seg k != .none) then [] else ["seg_lo"]) ++
+    (if ((st.ths.filter (fun t => t.grow != 0)).length ≤ 1) then [] else ["grow1"]) ++
+    ((st.ths.zipIdx).foldl (fun acc (t, tid) =>
+      acc ++ (if cAtB sh tid t then [] else [s!"CAt t{tid} {repr t.pc}"])
+          ++ (if kAtB t then [] else [s!"KAt t{tid} {repr t.pc}"])
+          ++ (if t.stk.all (holdsBB sh tid) then [] else [s!"heldB t{tid}"])
+          ++ (if (match t.acc with | some (n, w) => (if w then (sh.elk n).w == some tid else (sh.elk n).r.contains tid) && !sh.freed n && n.id < sh.nextId | none => true) then [] else [s!"heldE t{tid}"])
+          ++ (if (match t.n with | some n => decide (n.id < sh.nextId) | none => true) then [] else [s!"nodeId t{tid}"])
+          ++ (if t.pc == .idle || t.op.k == .exclude || t.h == hash t.op.key then [] else [s!"hOk t{tid}"])
+          ++ (if !(needsSlot t.op) || t.pc == .idle || t.pc == .relB .fin || t.pc == .alloc || t.pc == .pubMask || t.acc.isNone then [] else [s!"accNone t{tid} {repr t.pc}"])
+          ++ (if t.pc == .idle || t.op.k != .exclude || t.pc == .xRelock || t.pc == .free || t.pc == .relB .fin || t.pc == .eRel ||
+                (match t.n with | some n => t.h == hash n.key | none => false) then [] else [s!"exH t{tid} {repr t.pc}"])
+          ++ (if !t.rs || t.pc == .chk1 || t.pc == .chk2 || t.pc == .relB .restart then [] else [s!"rsOk t{tid} {repr t.pc}"])
+          ++ (if growAtB sh t then [] else [s!"GrowAt t{tid} {repr t.pc}"])) [])
+  if fails.isEmpty then none else some (" ".intercalate fails)
+
 /-! ## Line-protocol driver: replay of the abstract event trace of the real code (E-SHIM), pure functions (E-PURE) -/
 
 open Proto
@@ -664,6 +812,8 @@ structure DSt where
   mode : Nat := 0
   par : Nat := 0
   bound : Nat := 2          -- buckets/nodes below this index are materialised by `compact`
+  saved : Option (St × Nat) := none
+  chkInv : Bool := false    -- evaluate `checkInv` after every replayed event
   tolerated : Nat := 0      -- unmatched loads skipped
 
 def parseOp (w : String) : Option Op :=
@@ -691,7 +841,7 @@ def parseOp (w : String) : Option Op :=
 def showLab : Lab → String
   | .none => "-" | .blocked => "blocked"
   | .ldmask v => s!"ldmask {v}" | .stmask v => s!"stmask {v}"
-  | .ldl b f => s!"ldl {b} {showBool f}"
+  | .ldl b f => s!"ldl {b} {showBool f}" | .stl b => s!"stl {b}"
   | .bl b w => s!"bl {b} {if w then "W" else "R"}" | .bup b => s!"bup {b}" | .bdn b => s!"bdn {b}"
   | .bur b => s!"bur {b}" | .buw b => s!"buw {b}"
   | .szinc v => s!"szinc {v}" | .szdec v => s!"szdec {v}"
@@ -700,20 +850,14 @@ def showLab : Lab → String
   | .free n => s!"free {n}"
 
 /-- materialise the function-valued state components below `bound` (extensionally the identity; keeps replay fast) -/
-def compact (sh : Sh) (bound : Nat) : Sh :=
+def compact (sh : Sh) (_bound : Nat) : Sh :=
   let nb := 2 ^ (sh.lvl + 1)
   let ab := (Array.range nb).map sh.bkt
   let al := (Array.range nb).map sh.blk
-  let ae := (Array.range bound).map sh.elk
-  let af := (Array.range bound).map sh.freed
-  let au := (Array.range bound).map sh.unlinker
   let asg := (Array.range 64).map sh.seg
   { sh with
     bkt := fun i => if h : i < ab.size then ab[i] else .flagged
     blk := fun i => if h : i < al.size then al[i] else {}
-    elk := fun i => if h : i < ae.size then ae[i] else {}
-    freed := fun i => if h : i < af.size then af[i] else false
-    unlinker := fun i => if h : i < au.size then au[i] else none
     seg := fun i => if h : i < asg.size then asg[i] else .none }
 
 /-- run thread 0 of a one-thread state to completion (sequential pre-population) -/
@@ -793,7 +937,9 @@ def driveEv (d : DSt) (tid : Nat) (lab : List String) : DSt × String :=
           let st1 := step hash st0 a
           let nid := st1.sh.nextId + 1
           let d1 := { d with st := st1, bound := max d.bound nid }
-          if got == " ".intercalate lab then (d1, "ok")
+          let invFail := if d.chkInv then checkInv hash st1 else none
+          if let some f := invFail then (d1, s!"MISMATCH invariant fails after `{" ".intercalate lab}`: {f}")
+          else if got == " ".intercalate lab then (d1, "ok")
           else (d1, s!"MISMATCH impl={" ".intercalate lab} model={got} pc={repr t0.pc}")
     | [] => (d, "bad-op")
 
@@ -808,16 +954,22 @@ def drive (d : DSt) (ws : List String) : DSt × String :=
   let hash := hashFn d.mode d.par
   match ws with
   | ["reset"] => ({}, "ok")
+  | ["inv", x] => ({ d with chkInv := x == "1" }, "ok")
+  | ["invnow"] => (d, (checkInv hash d.st).getD "holds")
+  | ["save"] => ({ d with saved := some (d.st, d.bound) }, "ok")
+  | ["restore"] =>
+      match d.saved with
+      | some (st, b) => ({ d with st := st, bound := b, tolerated := 0 }, match (if d.chkInv then checkInv hash st else none) with | some f => s!"MISMATCH invariant fails after pre-population: {f}" | none => "ok")
+      | none => (d, "bad-op")
   | "hash" :: md :: rest =>
       let mode := match md with | "id" => 0 | "const" => 1 | "shl" => 2 | "mul" => 3 | "fold" => 4 | _ => 0
       ({ d with mode := mode, par := (rest.head?.bind nat?).getD 0 }, "ok")
   | "pre" :: ks =>
       match nats? ks with
       | some ks =>
-          let st1 : St := { sh := d.st.sh, ths := [{ ops := ks.map (fun k => { k := .ins, key := k, val := k, acc := 2 }) ++ [{ k := .release }] }] }
           -- each insert through an accessor, as the harness does; released before the next one
-          let st1 := { st1 with ths := [{ ops := (ks.map (fun k => [({ k := .ins, key := k, val := k, acc := 2 } : Op), { k := .release }])).flatten }] }
-          let st2 := runSeq hash st1 (ks.length * 40 + 10)
+          let st1 : St := { sh := d.st.sh, ths := [{ ops := (ks.map (fun k => [({ k := .ins, key := k, val := k, acc := 2 } : Op), { k := .release }])).flatten }] }
+          let st2 := runSeq hash st1 (ks.length * 200 + 200)
           let sh := compact st2.sh (st2.sh.nextId + 1)
           ({ d with st := { sh := sh, ths := [] }, bound := sh.nextId + 1 }, s!"ok {sh.size}")
       | none => (d, "bad-op")
@@ -841,6 +993,10 @@ def drive (d : DSt) (ws : List String) : DSt × String :=
       match nat? i with
       | some i => (d, s!"{segIndexOf i} {segBase (segIndexOf i)} {(bucketAddr i).2} {segSize (segIndexOf i)}")
       | none => (d, "bad-op")
+  | ["addr", i] =>
+      match nat? i with
+      | some i => if i < 2 ^ 12 then (d, s!"{(allocOf i).1} {(allocOf i).2}") else (d, "bad-op")
+      | none => (d, "bad-op")
   | ["par", b, h] =>
       match nat? b, nat? h with
       | some b, some h => (d, s!"{parentCode b} {parentOf b} {showBool (movesCode b h)} {showBool (movesTo b h)}")
@@ -850,6 +1006,7 @@ def drive (d : DSt) (ws : List String) : DSt × String :=
       -- code-shaped and level-shaped answers
       match nat? h, nat? lo, nat? lm, nat? c with
       | some h, some lo, some lm, some c =>
+          if lm > 12 || lo ≥ lm || c ≥ 2 ^ 12 then (d, "bad-op") else
           let code1 := chkCollCode (fun b => b == c) h (2 ^ lo - 1) (2 ^ lm - 1)
           let code0 := chkCollCode (fun _ => false) h (2 ^ lo - 1) (2 ^ lm - 1)
           let lv (fl : Nat → Bool) : Bool := h % 2 ^ lo != h % 2 ^ lm && !fl (h % 2 ^ nextLvl h lo (lm - lo))
@@ -857,7 +1014,9 @@ def drive (d : DSt) (ws : List String) : DSt × String :=
       | _, _, _, _ => (d, "bad-op")
   | ["grow", k] =>
       match nat? k with
-      | some k => (d, s!"{2 ^ lvlAfterEnable k - 1}")
+      | some k =>
+          if k < 1 || k > 14 || (k > 1 && k < Generated.C10.firstBlock) then (d, "bad-op")
+          else (d, s!"{2 ^ lvlAfterEnable k - 1}")
       | none => (d, "bad-op")
   | _ => (d, "bad-op")
 
